@@ -428,6 +428,26 @@ func c15Goroutines(c *Ctx) {
 						}
 					}
 				})
+				if !cancelDeferred {
+					// or called explicitly on every path from the WithCancel to a return
+					for _, wc := range c.Calls(target, Call("context.WithCancel")) {
+						if wc.Fn != target {
+							continue
+						}
+						cancelDeferred, _ = pathsFromPass(wc.In, func(o ssa.Instruction) bool {
+							ci, ok := o.(*ssa.Call)
+							if !ok {
+								return false
+							}
+							x := c.CallX(ci)
+							if x.Op != "dyncall" || len(x.Args) == 0 {
+								return false
+							}
+							_, m := Match(Extract("1", Is(wc.X)), x.Args[0])
+							return m
+						})
+					}
+				}
 				c.Check(cancelDeferred, "C15.Q4-goroutine-terminates", key+" › cancels pending syncs on exit", goi.Pos(),
 					"watcher defers the cancel of the context handed to announce-triggered syncs", "watcher exit does not cancel pending announce-triggered syncs: shutdown waits for them to run to completion")
 			}
